@@ -5001,13 +5001,14 @@ USER_NVRAM_Unmarshal(BYTE **buffer, INT32 *size)
 
                     memset(&obj, 0, sizeof(obj));
                     rc = ANY_OBJECT_Unmarshal(&obj, buffer, size, true);
-                    pAssert(rc == TPM_RC_SUCCESS);
-                    // convert the OBJECT into a buffer to copy into NVRAM
-                    marshalledObjectSize = NvObjectToBuffer(&obj, objBuffer, sizeof(objBuffer));
-                    NvWrite(entryRef + o + offset, marshalledObjectSize, objBuffer);
-                    offset += marshalledObjectSize;
+                    if (rc == TPM_RC_SUCCESS) {
+                        // convert the OBJECT into a buffer to copy into NVRAM
+                        marshalledObjectSize = NvObjectToBuffer(&obj, objBuffer, sizeof(objBuffer));
+                        NvWrite(entryRef + o + offset, marshalledObjectSize, objBuffer);
+                        offset += marshalledObjectSize;
 
-                    entrysize = sizeof(UINT32) + sizeof(TPM_HANDLE) + marshalledObjectSize;
+                        entrysize = sizeof(UINT32) + sizeof(TPM_HANDLE) + marshalledObjectSize;
+                    }
                 }
                 break;
             default:
